@@ -47,9 +47,14 @@ def generate(seed, tier):
         for (m, n) in rnd.sample(mn, 1 if quick else 4):
             tn, tk = ty()
             add('C05|write2d-eval|%s|%dx%d|%dx%d' % (tk, M, N, m, n), 'VP_CASE("@KEY@", vp::c05::write2d_eval<%s,%d,%d,%d,%d>);' % (tn, M, N, m, n))
-    for dims in [(4, 5, 6), (3, 4, 2, 5), (2, 3, 2, 3, 4), (5, 2, 9)]:
-        for _ in range(2 if quick else 8):
+    for dims in [(4, 5, 6), (3, 4, 2, 5), (2, 3, 2, 3, 4), (5, 2, 9), (3, 4, 16), (2, 2, 3, 8), (2, 3, 33)]:
+        for rep in range(2 if quick else 8):
             ms = [rnd.randrange(1, d + 1) for d in dims]
+            if rep % 2 == 1:
+                # the n-D views switch to a vector branch at run time when the last range is contiguous and a whole number of vectors long:
+                # every other case fixes the last extent to a multiple of a vector width and leaves room for stepped leading ranges
+                ms[-1] = rnd.choice([m for m in (2, 4, 8, 16, 32) if m <= dims[-1]])
+                ms[0] = max(1, min(ms[0], (dims[0] + 1) // 2))
             tn, tk = ty()
             add('C05|writend|%s|%s|%s' % (tk, 'x'.join(map(str, dims)), 'x'.join(map(str, ms))),
                 'static void @FN@(vp::Ctx& c) { vp::c05::ND<%s, Fastor::Index<%s>, Fastor::Index<%s>>::run(c); }\nVP_CASE("@KEY@", @FN@);'
